@@ -474,7 +474,7 @@ func freshCopy(n *node) *node {
 	if n == nil {
 		return nil
 	}
-	c := &node{kind: n.kind, num: n.num, l: freshCopy(n.l), r: freshCopy(n.r)}
+	c := &node{kind: n.kind, num: n.num, hasNum: n.hasNum, l: freshCopy(n.l), r: freshCopy(n.r)}
 	if n.kind == nLeaf {
 		saveC, saveN := concreteFields, nextField
 		c.lf = genLeaf([]int{n.lf.form}).lf
